@@ -35,7 +35,7 @@ def run(prog, rep):
     sub = _R(rep)
     rep.part(c09.intervals, prog, sub)
     rep.expect_min("C14.bounds", 8)
-    rep.expect_min("C14.constraints", 1)
+    rep.expect_min("C14.constraints", 2)
     rep.expect_min("C14.start", 4)
     rep.expect_min("C14.protocol", 7)
     rep.expect_min("C14.all", 1)
@@ -236,6 +236,17 @@ def constrained(prog, rep):
     rep.check(okc, "C14.constraints", f"{q}:constraints", site, "minimize(constraints=constraints)",
               "the 'constraints' formal is accepted (and defaulted to []) but never reaches scipy.optimize.minimize: declared inequality constraints are silently "
               "ignored (a declared b <= 1 returns b = 2)")
+    # the optimiser differentiates numerically: a step far below sqrt(machine epsilon) makes the gradient round-off noise
+    opts = bd.get("options")
+    eps = None
+    if opts is not None and opts[0] == "dict":
+        for k_, v_ in opts[1]:
+            if k_ == ("const", "eps"):
+                eps = v_
+    ok_eps = eps is None or (eps[0] == "const" and isinstance(eps[1], (int, float)) and eps[1] >= 1e-10)
+    rep.check(ok_eps, "C14.constraints", f"{q}:step", site, "finite-difference step left to scipy (or >= 1e-10)",
+              f"minimize is given options eps = {show(eps) if eps else None}: with a finite-difference step of that size the numerical gradient of the squared error "
+              "is pure round-off, SLSQP stops where it started (or anywhere) and reports success - the result is not a least-squares solution")
     ef = ("call", ("func", f"{FT}.get_least_squares_error_func"), (P("func"), P("x"), P("y")), ())
     rep.check(bd.get("fun") == ef and bd.get("x0") == P("p0"), "C14.start", f"{q}:objective", site, "minimize(least-squares error of func on (x, y), p0)",
               f"the constrained fit must minimise the least-squares error of func on (x, y) starting at p0; found fun={show(bd.get('fun', NONE))[:80]}")
